@@ -16,6 +16,10 @@ TRUSTED = [
     "date + timedelta (days only), calendar.monthrange — modelled in Base/Time.lean + Model, validated by base.* and rd.add",
 ]
 ASSUMPTIONS = [
+    "PEP 495 fold is not part of the model because it cannot influence or survive x + delta: the last step of __add__ is "
+    "always `datetime + timedelta` (a new object with fold=0), nothing in __add__ reads other.fold, and for one shared "
+    "tzinfo object CPython compares/subtracts wall clocks ignoring fold; checked on every run (oracle clause `fold`: "
+    "result.fold == 0 and flipping the operand's fold leaves the result unchanged, incl. ambiguous America/New_York times)",
     "aware operands: arithmetic is on the wall clock and the tzinfo object is carried through unchanged (CPython semantics); "
     "the zone is an opaque tag in the model",
     "asserts enabled (python without -O): the model has the AssertionError branch of line 369; it is unreachable for "
@@ -29,7 +33,7 @@ RULE = ("seeded random (delta, operand): delta from keyword arguments (every com
 
 
 def impl_add(x, d):
-    return L.run(lambda: x + d, L.t_wire)
+    return L.run(lambda: x + d, L.t_show)
 
 
 def correspondence(ctx):
@@ -50,14 +54,16 @@ def correspondence(ctx):
         if abs(d.days) > 10 ** 15 or abs(d.years) > 10 ** 15:
             ctx.count("corr_huge_delta")
         x = L.g_temporal(rng)
+        if getattr(x, "fold", 0):
+            ctx.count("corr_operand_fold1")
         w, t = L.rd_wire(d), L.t_wire(x)
         r = impl_add(x, d)
         reqs.append("rd.add %s %s" % (w, t)); exp.append(r)
         ctx.count("corr_add_" + (r.split()[1] if r.startswith("err") else "ok_" + r.split()[1][0]))
         if i % 3 == 0:
-            reqs.append("rd.rsub %s %s" % (w, t)); exp.append(L.run(lambda: x - d, L.t_wire))
+            reqs.append("rd.rsub %s %s" % (w, t)); exp.append(L.run(lambda: x - d, L.t_show))
         if i % 5 == 0:
-            reqs.append("rd.add %s %s" % (w, t)); exp.append(L.run(lambda: d + x, L.t_wire))
+            reqs.append("rd.add %s %s" % (w, t)); exp.append(L.run(lambda: d + x, L.t_show))
     got = ctx.driver(reqs)
     for q, e, g in zip(reqs, exp, got):
         if e != g:
@@ -109,6 +115,18 @@ def check_pair(ctx, kw, x, spec_resp):
     else:
         if not isinstance(res, datetime.datetime) or res.tzinfo is not x.tzinfo:
             ctx.violation("datetime operand changed type / tzinfo", dict(case, law="promotion"))
+    # PEP 495 fold: __add__ always ends in `datetime + timedelta`, which builds a fresh datetime with fold=0,
+    # and never reads the operand's fold (wall-clock arithmetic) -> the model carries no fold bit.
+    if isinstance(res, datetime.datetime):
+        if res.fold != 0:
+            ctx.violation("result has fold=%d" % res.fold, dict(case, law="fold"))
+        if isinstance(x, datetime.datetime):
+            other = x.replace(fold=1 - x.fold)
+            r_other = impl_add(other, d)
+            ctx.count("fold_flip_checked" if x.fold == 0 else "fold1_operand_checked")
+            if r_other != r:
+                ctx.violation("the operand's fold changes the result: fold=%d -> %s, fold=%d -> %s"
+                              % (x.fold, r, other.fold, r_other), dict(case, law="fold"))
     # weekday clause, checked independently of the Lean spec: count the days with that weekday
     if d.weekday is not None:
         try:
